@@ -16,3 +16,13 @@ chk("C18", "engine-I", "exploration",
     "detect_schema (x exclude_const x every sub-selection given as ids and as Job objects) and diff_jobs (every sub-selection, every order) on every corpus of <=4 (quick) / <=5 (thorough) jobs from a 16-state-point universe built to collide (1/1.0/True/'1', -2/-2.0, scalar-vs-mapping key, partial keys) must equal reference summaries computed from the flattened state points.",
     "Trusted: reference schema/diff in vlib/checks/c18.py, canon.tagged for type-exact value identity. Corpora above the bound and empty-mapping values are not covered.",
     "bounded-exhaustive corpus enumeration against a reference model", "DESIGN.md section 6 C18")
+ENGINES[0]["serves_properties"] = ["C01", "C06", "C09", "C18"]
+ENGINES.append({"name": "engine-H", "path": "vlib/engine_h.py", "serves_properties": ["C08"], "kind_free_text": "explicit-state breadth-first search over histories of real API calls with canonical-state de-duplication; every transition is executed on the real implementation (fresh world, history replayed) in lock step with a reference model"})
+chk("C09", "engine-I", "fault_enumeration",
+    "For 6 state point shapes every truncation offset, every (offset, 16 replacement bytes) pair, deletion, 9 replacement documents, swaps and directory renames of the state point file, and every assignment of 9 damage classes to 3 jobs under both directory listing orders, each with and without a persistent cache: check() must name exactly the independently classified damaged directories, opening by id must raise or return a value hashing to the id, repair() must restore every restorable job and never change a data file.",
+    "Trusted: Python's json parser as the definition of 'parses', canon.job_id for the damage verdict. Multi-byte damage other than the listed classes and subsets above 3 jobs are not covered.",
+    "exhaustive single-fault enumeration over file bytes + bounded multi-fault product, independent damage classifier as oracle", "DESIGN.md section 6 C09")
+chk("C08", "engine-H", "model_checking",
+    "All reachable states (workspace ids x cache-file content x in-memory cache keys x read flag) of a closed universe of 3 (quick) / 4 (thorough) state points under init/remove/re-key/update_cache/restart/delete-cache/query/open-by-id are explored to a fixpoint on the real Project API; in every state a battery (len, iteration, 6 filters, open-by-id, cached_statepoint, membership) must answer identically with and without the cache file and equal the model; every update_cache transition must leave an exact file and make a second call a no-op.",
+    "Trusted: the state abstraction (cache values are determined by their id), the model (a set of initialised indices). Job documents and retained job handles are outside this universe.",
+    "explicit-state model checking of the implementation to closure (BFS with state hashing), model in lock step", "DESIGN.md section 6 C08")
